@@ -339,7 +339,7 @@ type ServerConfig struct {
 
 	// SlidingWindowFilterSize is the size of the sliding window filter.
 	//
-	// The default value is 256.
+	// The default value is 256. The maximum value is 1048576.
 	//
 	// Only applicable to Shadowsocks 2022 UDP.
 	SlidingWindowFilterSize uint64 `json:"slidingWindowFilterSize,omitzero"`
@@ -392,6 +392,10 @@ func (sc *ServerConfig) Initialize(tlsCertStore *tlscerts.Store, listenConfigCac
 	case "2022-blake3-aes-128-gcm", "2022-blake3-aes-256-gcm":
 		err := ss2022.CheckPSKLength(sc.Protocol, sc.PSK, nil)
 		if err != nil {
+			return err
+		}
+
+		if err = ss2022.CheckSlidingWindowFilterSize(sc.SlidingWindowFilterSize); err != nil {
 			return err
 		}
 
